@@ -85,7 +85,8 @@ def compare(scn, vals, flags, errors, kind="ekf"):
             oin = vals.get((i, "innov"), {})
             n += pyrep.cmp_vec(out, "x", i, ox, st["x"])
             n += pyrep.cmp_mat(out, "P", i, oP, st["P"])
-            n += pyrep.cmp_vec(out, "innov", i, oin, st["innov"])
+            if "innov" in st:
+                n += pyrep.cmp_vec(out, "innov", i, oin, st["innov"])
             unchanged = flags.get((i, "unchanged"))
             if st["outcome"] == "rejected" and unchanged != 1:
                 out.append(pyrep.Mismatch(step=i, what="discard-changed-estimate", name=st["key"], expected="unchanged", observed="changed"))
